@@ -383,6 +383,11 @@ func canInvertJoin(node *invertibleTypeJoin, parentPlan *selectTopNode) bool {
 			// it would report the outer iteration as exhausted after the first parent.
 			return false
 		}
+		if childTop, ok := join.childSide.plan.(*selectTopNode); ok && childTop.limit != nil {
+			// Likewise a limit node in the child plan: the outer iteration would run through it and end
+			// with the first parents' children, once the limit is used up.
+			return false
+		}
 	}
 	return true
 }
